@@ -30,11 +30,10 @@ def run(ctx):
     ctx.add(Harness('C24_weekly_step', H, defines=defs + ['MODE=2'], unwind=3, backend='cvc5int', timeout=600, functions=FUN, stubs=STUBS,
                     bounds=bnd + ', all 49 day pairs, previous instant at most 60 s earlier with the previous state equal to the window predicate there',
                     desc='weekly: inductive step over polls <= 60 s apart'))
-    # thorough: one harness per start day (end day symbolic) and a wider clock range
-    for sd in range(7):
-        for mode, nm in ((1, 'base'), (2, 'step')):
-            ctx.add(Harness('C24_weekly_%s_sd%d' % (nm, sd), H, defines=defs + ['MODE=%d' % mode, 'SD=%d' % sd, 'DMAX=100000'], unwind=3, backend='cvc5int', timeout=900,
-                            functions=FUN, stubs=STUBS, tier='thorough', bounds=bnd.replace('about 2201', 'about 2243') + ', start day %d, every end day' % sd, desc='weekly %s case for one start day' % nm))
+    # thorough: the same three queries over a wider clock range (pinning the start day made cvc5 slower, not faster: > 15 min per query)
+    for mode, nm in ((0, 'daily'), (1, 'weekly_base'), (2, 'weekly_step')):
+        ctx.add(Harness('C24_%s_wide' % nm, H, defines=defs + ['MODE=%d' % mode, 'DMAX=100000'], unwind=3, backend='cvc5int', timeout=1800, functions=FUN, stubs=STUBS, tier='thorough',
+                        bounds=bnd.replace('about 2201', 'about 2243'), desc='as the quick query, day numbers up to 100000'))
     # decode_dow: cut mode, the shim linked with runtime/f8utils.cpp; the TU's own static initialiser builds day_names/daymap
     dll = ctx.link_ir([ctx.build_ir('c24.cpp', 'cut'), ctx.build_ir(REPO + '/runtime/f8utils.cpp', 'cut')], 'c24dow_all')
     ctx.translate(dll, ['vf_decode_dow', '_GLOBAL__sub_I_f8utils.cpp'], 'c24dow.c', stubfiles=['common.stubs'], models=['cxx.c', 'stubs.c', 'c24_env.c'])
